@@ -204,6 +204,14 @@ def maxPossibleRelays (app : App) (count : Int) : Option Int := do
   let y ← BigDec.quo x (BigDec.ofInt count)
   pure (BigDec.roundInt y)
 
+/-- two's-complement wrap of an `int64` computation -/
+def wrap64 (x : Int) : Int := (x + 2 ^ 63) % 2 ^ 64 - 2 ^ 63
+
+/-- `RelayMeta.Validate` exactly as the machine computes it (`int64` additions wrap):
+`h + allowance < m || h - allowance > m`. -/
+def metaOutOfSync64 (h allowance m : Int) : Bool :=
+  decide (wrap64 (h + allowance) < m ∨ wrap64 (h - allowance) > m)
+
 /-- The storeless head of `Relay.Validate`: payload, meta height allowance, request hash, hosted
 chain, session height argument, `PrevCtx`. -/
 def preChecks (E : Env) (r : Relay) (sbhArg : Int) : Option Fail :=
